@@ -230,6 +230,11 @@ def parts(tier):
                                     gap_models=("flow",), n_steps=(25, 80), regimes=("lam", "tra", "tur"),
                                     byp_frac=(0.02, 0.3), conv_approx=True, regions=True),
              examples=64 if q else 1500, timeout=120),
+        Part("flowing_gap_37_positions", run_flow,
+             strategy=gen.core_spec(core_rings=(4, 4), n_types=(2, 3), rings=(2, 3), ducts=(1, 2),
+                                    gap_models=("flow",), n_steps=(10, 25), regimes=("lam", "tra", "tur"),
+                                    byp_frac=(0.02, 0.3), regions=True, twins=True),
+             examples=8 if q else 200, timeout=240),
         Part("adiabatic", run_adiabatic,
              strategy=gen.core_spec(core_rings=(1, 2), rings=(2, 4), ducts=(1, 3), gap_models=("none",),
                                     n_steps=(25, 60), regimes=("lam", "tra", "tur"), regions=True),
